@@ -28,7 +28,7 @@ RULE = (
 ASSUMPTIONS = ["when a default is re-registered, a runtime created while the earlier default was registered may serve either (the statement does not say); a runtime that predates the first registration must serve the current one"]
 FLOORS = {"programs": (15000, 150000), "runs_compared": (60000, 600000), "exits_by_exception": (3000, 30000),
           "reentered_active": (600, 6000), "started_without_runtime": (4000, 40000), "late_defaults": (3000, 30000), "default_reregistrations": (800, 8000),
-          "library_derived_blocks": (1500, 15000), "requests_whose_handler_raised": (1000, 10000), "reinherit_from_runtimeless_thread": (800, 8000), "succession_threads": (3500, 35000), "succession_threads_without_runtime": (2000, 20000)}
+          "library_derived_blocks": (1500, 15000), "requests_whose_handler_raised": (1000, 10000), "reinherit_from_runtimeless_thread": (800, 8000), "succession_threads": (3500, 35000), "succession_threads_without_runtime": (2000, 20000), "lazy_consumptions": (800, 8000), "lazy_consumed_inside_block": (400, 4000)}
 SHARDS_QUICK = 4
 
 
@@ -76,9 +76,11 @@ def tagger(tag):
 TAGS = ["h1", "h2", "h3", "kerr"]
 
 
-def gen_block(r, depth, size, names):
+def gen_block(r, depth, size, names, lz=None):
     """Statements: ("run", T) ("with", rtexpr, block, raises) ("derive", name, src, T, tag)
-    ("fresh", name, {T: tag}) ("regdefault", T, tag)."""
+    ("fresh", name, {T: tag}) ("regdefault", T, tag); ("lazy", name, kind) evaluates an Iter / Map (a lazily produced
+    iterable), ("next", name) / ("drain", name) consume it later - inside whatever block is active by then."""
+    lz = [] if lz is None else lz
     out = []
     n = r.choice([1, 2, 3]) if depth else r.choice([2, 3, 4])
     for _ in range(n):
@@ -86,7 +88,14 @@ def gen_block(r, depth, size, names):
             break
         size[0] -= 1
         k = r.random()
-        if k < 0.35:
+        if k < 0.24:
+            out.append(["run", r.choice(["T0", "T1", "T2"])])
+        elif k < 0.35:
+            if lz and r.random() < 0.7:
+                out.append([r.choice(["next", "next", "drain"]), r.choice(lz)])
+            else:
+                lz.append(f"z{len(lz)}")
+                out.append(["lazy", lz[-1], r.choice(["iter", "map"])])
             out.append(["run", r.choice(["T0", "T1", "T2"])])
         elif k < 0.65 and depth < 4:
             choice = r.random()
@@ -97,7 +106,7 @@ def gen_block(r, depth, size, names):
                 expr = ["handle", r.choice(["T0", "T1", "T2"]), r.choice(TAGS)]  # with handle(T, h): derive from current
             else:
                 expr = ["name", r.choice(names)]
-            body = gen_block(r, depth + 1, size, names)
+            body = gen_block(r, depth + 1, size, names, lz)
             out.append(["with", expr, body, r.random() < 0.25])
         elif k < 0.8:
             name = f"r{len(names)}"
@@ -167,6 +176,7 @@ def execute(program):
     rt.handle_by_default(types["T0"], tagger("default0"))
     model = Model(program["start_with_runtime"])
     real = {}
+    lazies = {}
     stats = {"runs": 0, "exc_exits": 0, "reentered": 0, "late": 0, "run_after_exit": 0}
     result = {}
     late_registered = [0]
@@ -190,6 +200,24 @@ def execute(program):
                     stats["run_after_exit"] += 1
                 if got not in exp:
                     raise Mismatch(f"run({T}) answered by {got!r}, model says {sorted(exp)!r}", st)
+            elif op == "lazy":
+                # the result of an Iter / Map is produced item by item, whenever (and wherever) the caller asks for the next one
+                from labrea import Iter, Map, Option
+
+                ev = Iter(Option("A", 1), Option("B", 2), Option("C", 3)) if st[2] == "iter" else Map(Option("A"), {"A": [1, 2, 3]})
+                model.current()  # (an evaluation gives a thread without a runtime its base runtime, like any request)
+                lazies[st[1]] = iter(ev.evaluate({}))
+            elif op in ("next", "drain"):
+                it = lazies[st[1]]
+                model.current()
+                if op == "next":
+                    next(it, None)
+                else:
+                    for _ in it:
+                        pass
+                stats["lazy_consumptions"] = stats.get("lazy_consumptions", 0) + 1
+                if active or model.stack[1:]:
+                    stats["lazy_consumed_inside_block"] = stats.get("lazy_consumed_inside_block", 0) + 1
             elif op == "with":
                 expr = st[1]
                 if expr[0] == "lib":
@@ -286,19 +314,30 @@ def execute(program):
         except Exception as e:  # noqa: BLE001
             result["mismatch"] = (f"unexpected {type(e).__name__}: {e}", ["?"])
 
-    t = threading.Thread(target=body, name="c14-worker")
+    t = threading.Thread(target=body, name="c14-worker", daemon=True)
     t.start()
     t.join(30)
     if t.is_alive():
         result["hung"] = True
-    with rt.lock:
-        rt._RUNTIMES.pop(t, None)
-        for T in types.values():
-            rt._DEFAULT_HANDLERS.pop(T, None)
+    # (a worker that hangs may hang while holding the library's lock: nothing more can be run in this process then)
+    if rt.lock.acquire(timeout=10 if t.is_alive() else -1):
+        try:
+            rt._RUNTIMES.pop(t, None)
+            for T in types.values():
+                rt._DEFAULT_HANDLERS.pop(T, None)
+        finally:
+            rt.lock.release()
+    else:
+        result["wedged"] = True
     return result, stats
 
 
 DIRECTED = [
+    # an iterable produced under one runtime, consumed piecemeal inside another block and after it
+    {"start_with_runtime": True, "block": [["with", ["handle", "T1", "h1"], [["lazy", "z0", "iter"], ["run", "T1"]], False], ["with", ["handle", "T1", "h2"], [["next", "z0"], ["run", "T1"]], False], ["run", "T1"],
+                                           ["drain", "z0"], ["run", "T1"], ["run", "T0"]]},
+    {"start_with_runtime": False, "block": [["fresh", "r0", {"T2": "h1"}], ["with", ["name", "r0"], [["lazy", "z0", "map"], ["next", "z0"], ["run", "T2"]], False], ["run", "T2"],
+                                            ["with", ["handle", "T2", "h2"], [["next", "z0"], ["run", "T2"]], True], ["run", "T2"], ["drain", "z0"], ["run", "T2"]]},
     {"start_with_runtime": True, "block": [["fresh", "r0", {}], ["run", "T1"], ["regdefault", "T1", "late"], ["with", ["name", "r0"], [["run", "T1"]], False], ["run", "T1"], ["regdefault", "T1", "late"],
                                             ["run", "T1"], ["with", ["name", "r0"], [["run", "T1"], ["derive", "r1", ["current"], "T2", "h1"], ["with", ["name", "r1"], [["run", "T1"]], False]], False], ["run", "T1"]]},
     {"start_with_runtime": True, "block": [["fresh", "r0", {"T2": "h1"}], ["with", ["name", "r0"], [["with", ["name", "r0"], [["run", "T2"]], False], ["run", "T2"]], False], ["run", "T2"], ["run", "T0"]]},
@@ -322,10 +361,13 @@ def run_one(ctx, program, tag):
     ctx.count("default_reregistrations", stats.get("rereg", 0))
     ctx.count("library_derived_blocks", stats.get("lib_blocks", 0))
     ctx.count("requests_whose_handler_raised", stats.get("handler_raised", 0))
+    ctx.count("lazy_consumptions", stats.get("lazy_consumptions", 0))
+    ctx.count("lazy_consumed_inside_block", stats.get("lazy_consumed_inside_block", 0))
     if not program["start_with_runtime"]:
         ctx.count("started_without_runtime")
     if result.get("hung"):
-        ctx.inconclusive.append("a C14 program did not finish within 30 s")
+        ctx.inconclusive.append("a C14 program did not finish within 30 s" + (" and left the library's lock taken" if result.get("wedged") else ""))
+        ctx.wedged = ctx.wedged if getattr(ctx, "wedged", False) else bool(result.get("wedged"))
         return
     if "mismatch" in result:
         msg, st = result["mismatch"]
@@ -388,7 +430,7 @@ def succession(ctx, r, case):
                         got["reinherited"] = {T: ask(T) for T in ("T0", "T1", "T2")}
                 got["after"] = {T: ask(T) for T in ("T0", "T1", "T2")}
 
-            t = threading.Thread(target=child, name=f"c14-succ-{step}")
+            t = threading.Thread(target=child, name=f"c14-succ-{step}", daemon=True)
             threads.append(t)
             if mode in ("inherit-in-block", "plain-while-parent-in-block"):
                 with rt.handle(types[blk_T], tagger(blk_tag)):
@@ -437,16 +479,25 @@ def succession(ctx, r, case):
     except Exception as e:  # noqa: BLE001  (the harness only derives / enters runtimes with valid handlers)
         ctx.violation("thread-succession", f"deriving or entering a runtime with a valid handler raised {type(e).__name__}: {e}", W)
     finally:
-        with rt.lock:
-            for t in threads:
-                rt._RUNTIMES.pop(t, None)
-            for T in types.values():
-                rt._DEFAULT_HANDLERS.pop(T, None)
+        alive = any(t.is_alive() for t in threads)
+        if rt.lock.acquire(timeout=10 if alive else -1):
+            try:
+                for t in threads:
+                    rt._RUNTIMES.pop(t, None)
+                for T in types.values():
+                    rt._DEFAULT_HANDLERS.pop(T, None)
+            finally:
+                rt.lock.release()
+        else:
+            ctx.wedged = True
 
 
 def run(ctx):
     for i in range(ctx.n(1200, 12000)):
         succession(ctx, case_rng(ctx, ("succ", i)), i)
+        if getattr(ctx, "wedged", False):
+            ctx.inconclusive.append("a hung thread holds the library's lock: the rest of this shard's workload was not run")
+            return
     if ctx.shard == 0:
         for p in DIRECTED:
             run_one(ctx, p, "directed")
@@ -454,6 +505,9 @@ def run(ctx):
     for i in range(n):
         r = case_rng(ctx, i)
         run_one(ctx, gen_program(r, r.choice([4, 6, 8, 12] if ctx.quick else [4, 8, 12, 20, 30])), "random")
+        if len(ctx.inconclusive) >= 3 or getattr(ctx, "wedged", False):
+            ctx.inconclusive.append("programs did not finish (or a hung thread holds the library's lock): the rest of this shard's workload was not run")
+            break
 
 
 def replay(ctx, rep):
